@@ -1,24 +1,20 @@
-use engeom::{Iso3, Mesh, Plane3, Point3, UnitVec3, Vector3};
+use engeom::common::AngleDir;
+use engeom::geom2::hull::{ball_pivot_with_centers_2d, BallPivotEnd, BallPivotStart};
+use engeom::Point2;
 fn main() {
-    let (sx, sy) = (0.5000000000011529, 3.1440666663858847);
-    let ax = Vector3::new(0.49214432949105447, 0.4545131353375645, 0.7424363735401285).normalize() * -1.7179289291171027;
-    let iso = Iso3::new(Vector3::new(0.09697189754511903, 3.220295049600743, -3.8621702057119656), ax);
-    let v: Vec<Point3> = [[0.0, 0.0, 0.0], [sx, 0.0, 0.0], [0.0, sy, 0.0], [sx, sy, 0.0]].iter().map(|p| iso * Point3::new(p[0], p[1], p[2])).collect();
-    for faces in [vec![[0u32, 1, 3], [0, 3, 2]], vec![[0u32, 1, 2], [1, 3, 2]]] {
-        let m = Mesh::new(v.clone(), faces.clone(), false);
-        let n = Vector3::new(-0.5759192141078121, 0.5932361426655713, 0.5624837223037782).normalize();
-        let proj: Vec<f64> = v.iter().map(|p| n.dot(&p.coords)).collect();
-        let (lo, hi) = (proj.iter().cloned().fold(f64::INFINITY, f64::min), proj.iter().cloned().fold(f64::NEG_INFINITY, f64::max));
-        let d = lo + 0.7202451074742715 * (hi - lo);
-        let plane = Plane3::new(UnitVec3::new_normalize(n), d);
-        println!("faces {:?} proj {:?} d {d}", faces, proj);
-        let which = std::env::args().nth(1).unwrap_or_default();
-        if which == "section" {
-            let c = m.section(&plane, Some(1e-9)).unwrap();
-            println!("section ok: {} curves", c.len());
-        } else {
-            let r = m.split(&plane);
-            println!("split ok: {}", match r { engeom::common::SplitResult::Pair(..) => "pair", engeom::common::SplitResult::Negative => "neg", _ => "pos" });
-        }
+    let s = std::fs::read_to_string(std::env::args().nth(1).unwrap()).unwrap();
+    let v: serde_json::Value = serde_json::from_str(&s).unwrap();
+    let c = &v["Pivot"];
+    let mut pts: Vec<Point2> = c["pts"].as_array().unwrap().iter().map(|p| Point2::new(p[0].as_f64().unwrap(), p[1].as_f64().unwrap())).collect();
+    pts.sort_by(|a, b| a.x.partial_cmp(&b.x).unwrap().then(a.y.partial_cmp(&b.y).unwrap()));
+    pts.dedup_by(|a, b| (*a - *b).norm() < 1e-6);
+    let n = pts.len();
+    let radius = c["radius"].as_f64().unwrap() * (100.0 / n as f64).sqrt();
+    let dir = if c["cw"].as_bool().unwrap() { AngleDir::Cw } else { AngleDir::Ccw };
+    let (idx, cen) = ball_pivot_with_centers_2d(&pts, BallPivotStart::StartOnConvex, BallPivotEnd::EndOnRepeat, dir, radius).unwrap();
+    eprintln!("n={n} r={radius} cw={} steps={}", c["cw"], cen.len());
+    for (s, cc) in cen.iter().enumerate() {
+        let inside: Vec<(usize, f64)> = pts.iter().enumerate().filter(|(_, p)| (*p - cc).norm() < radius * (1.0 - 1e-6)).map(|(j, p)| (j, radius - (p - cc).norm())).collect();
+        eprintln!("step {s}: {} {:?} -> {} {:?} centre {:?} inside {:?}", idx[s], pts[idx[s]], idx[s + 1], pts[idx[s+1]], cc, inside);
     }
 }
